@@ -9,7 +9,7 @@ PID = "C18"
 ANCHORS = ["pyoma2.functions.gen:MAC", "pyoma2.functions.gen:MPC", "pyoma2.functions.gen:MPD", "pyoma2.functions.gen:MCF", "pyoma2.functions.gen:MSF"]
 REQUIRED_MONITORS = ["mixed-dtype MAC", "range@MAC", "range@MPC", "range@MPD", "range@MCF", "shape+symmetry@MAC", "scale-invariance", "collinear-exact",
                      "MSF(v,cv)=c", "contracts-active-during-SSI-run"]
-CLASSES = ["generic", "nearly_collinear_1e-8", "nearly_collinear_1e-3", "collinear", "collinear_unit_normalised", "collinear_zero_components",
+CLASSES = ["generic", "generic_unit_normalised", "generic_zero_or_real_components", "nearly_collinear_1e-8", "nearly_collinear_1e-3", "collinear", "collinear_unit_normalised", "collinear_zero_components",
            "collinear_halves", "constant", "isotropic_reference", "sets"]
 ALL_STATES = ["class:" + c for c in CLASSES] + ["n=2", "n>=33"]
 REQUIRED_STATES = ["class:" + c for c in CLASSES] + ["n=2", "sets with more shapes than components"]
@@ -166,6 +166,20 @@ def draw(rng, cls):
     v = rng.standard_normal(n)
     if cls == "generic":
         phi = v + 1j * rng.standard_normal(n) * rng.choice([1.0, 0.3])
+    elif cls == "generic_unit_normalised":
+        # a genuinely complex shape as the library returns it: divided by its largest component, which is then exactly 1+0j
+        phi = v + 1j * rng.standard_normal(n) * rng.choice([1.0, 0.3])
+        phi = phi / phi[np.argmax(np.abs(phi))]
+        phi[np.argmax(np.abs(phi))] = 1.0 + 0.0j
+    elif cls == "generic_zero_or_real_components":
+        # complex shape with some components exactly zero (sensor at a node) and some purely real / purely imaginary
+        phi = v + 1j * rng.standard_normal(n)
+        k = rng.permutation(n)
+        phi[k[0]] = 0.0
+        if n >= 3:
+            phi[k[1]] = phi[k[1]].real
+        if n >= 4:
+            phi[k[2]] = 1j * phi[k[2]].imag
     elif cls == "nearly_collinear_1e-8":
         phi = v + 1j * 1e-8 * rng.standard_normal(n)
     elif cls == "nearly_collinear_1e-3":
